@@ -162,7 +162,9 @@ Qed.
       (any outcomes of the external program, any clean-up modes, any order), whenever a result is
       parsed — from a reused output or a fresh one — the file it comes from was produced by a
       request with the SAME identity, hence one that agrees in every field the identity
-      determines. *)
+      determines.  The operation may be issued through a NEW Calculation object or through an
+      existing one (or a copy) that was changed and run again (o_start = the name it carried): a
+      request is determined by its current fields, not by the history of the object. *)
 Theorem parsed_results_same_identity : forall (st : state) (o : op) (r' : request),
   reachable st -> clean_op o ->
   ob_energy (snd (exec_op st o)) = Some r' ->
@@ -191,6 +193,25 @@ Proof.
     unfold exec_opt. destruct (fs_find (st_fs st) (trj_name (snd (reg_step (st_reg st) r)))) as [[nm own k]|]; [destruct k|]; exact E.
   - intros H. pose proof (opt_parsed_same_identity st r r' (reachable_inv st Hr) C H) as E.
     split; [exact E|]. intros pf Hc. exact (covered_sound id_fields pf r' r _ _ Hc E).
+Qed.
+
+(* 8c. "An identical request gets the same name" (theorem 2) is about requests issued through NEW
+       Calculation objects.  It is FALSE when an existing object is re-used: _fix_unique starts from
+       the name the object carries (executors.py:312), so a calculation changed to k2 and then back
+       to its original input is named a_xtb00 and run again instead of re-using a_xtb.  (Safety is
+       not affected: theorems 8/8b hold for re-used objects too.) *)
+Theorem reused_object_same_request_refuted :
+  let r1 := w_req "a" "SPKeywords('k1')" w_sp None in
+  let r2 := w_req "a" "SPKeywords('k2')" w_sp None in
+  exists n1 n2 n3,
+    map ob_name (snd (run_ops init_state [mkOp r1 ONormal CNone [] None; mkOp r2 ONormal CNone [] (Some n1);
+                                          mkOp r1 ONormal CNone [] (Some n2)])) = [n1; n2; n3] /\
+    n3 <> n1 /\
+    map ob_invoked (snd (run_ops init_state [mkOp r1 ONormal CNone [] None; mkOp r2 ONormal CNone [] (Some n1);
+                                             mkOp r1 ONormal CNone [] (Some n2)])) = [true; true; true].
+Proof.
+  cbv zeta. exists (s2l "a_xtb"), (s2l "a_xtb0"), (s2l "a_xtb00").
+  split; [vm_compute; reflexivity|]. split; [vm_compute; congruence|vm_compute; reflexivity].
 Qed.
 
 (* ------------------------------------------------------------------------------------------ *)
